@@ -19,8 +19,10 @@ Open Scope N_scope.
 Local Open Scope string_scope.
 
 (* ---------- small string helpers ---------- *)
-Fixpoint contains (s sub : bytes) : bool :=            (* strings.Contains *)
-  has_prefix s sub || match s with [] => false | _ :: r => contains r sub end.
+(* strings.Trim(s, " \t") *)
+Definition is_ows (c : N) : bool := (c =? 32) || (c =? 9).
+Fixpoint ltrim (s : bytes) : bytes := match s with c :: r => if is_ows c then ltrim r else s | [] => [] end.
+Definition trim (s : bytes) : bytes := rev (ltrim (rev (ltrim s))).
 
 (* path.Ext: suffix starting at the last '.' of the last '/'-separated element *)
 Fixpoint ext_rev (r acc : bytes) : bytes :=
@@ -271,9 +273,25 @@ Definition g_finish (g : gst) : uw :=
   if g_active g then uw_write (SG (rev (g_ws g))) (g_u g) else g_u g.
 Definition run_gz (c : gcfg) (s : list op) : uw := g_finish (fold_left (gstep c) s g0).
 
+(* isZeroQValue: "0", or "0." followed by zeros only *)
+Definition zero_qvalue (q : bytes) : bool :=
+  beq q (bs "0") || (has_prefix q (bs "0.") && forallb (N.eqb 48) (skipn 2 q)).
+(* acceptsGzip: some element of the comma separated list is named gzip or x-gzip (after trimming
+   blanks, case-sensitively) and none of its ;-parameters is q= / Q= with a zero value *)
+Definition q_refuses (param : bytes) : bool :=
+  match trim param with
+  | c1 :: c2 :: v => ((c1 =? 113) || (c1 =? 81)) && (c2 =? 61) && zero_qvalue (trim v)
+  | _ => false
+  end.
+Definition coding_offers_gzip (coding : bytes) : bool :=
+  let params := split 59 coding in
+  let name := trim (hd [] params) in
+  (beq name GZIP || beq name (bs "x-gzip")) && negb (existsb q_refuses (tl params)).
+Definition accepts_gzip (ae : bytes) : bool := existsb coding_offers_gzip (split 44 ae).
+
 (* Gzip.ServeHTTP *)
 Definition gzip_serve (cs : bool) (cfgs : list gcfg) (path ae : bytes) (s : list op) : uw :=
-  if negb (contains ae GZIP) then run_plain s
+  if negb (accepts_gzip ae) then run_plain s
   else match find (req_ok cs path) cfgs with
        | None => run_plain s
        | Some c => run_gz c s
@@ -322,9 +340,6 @@ Definition priority_snapshot : list (bytes * bytes) :=
 (* ---------- executable spec helpers (independent of the model functions above) ---------- *)
 (* RFC 7231 5.3.4 reading of Accept-Encoding: comma list, coding name before ';',
    case-insensitive, q=0 means "not acceptable", "*" covers codings not listed *)
-Definition is_ows (c : N) : bool := (c =? 32) || (c =? 9).
-Fixpoint ltrim (s : bytes) : bytes := match s with c :: r => if is_ows c then ltrim r else s | [] => [] end.
-Definition trim (s : bytes) : bytes := rev (ltrim (rev (ltrim s))).
 Definition is_zero_q (v : bytes) : bool :=
   beq v (bs "0") || (has_prefix v (bs "0.") && forallb (N.eqb 48) (skipn 2 v)).
 Definition qzero (params : list bytes) : bool :=
